@@ -270,6 +270,25 @@ def api_job(job):
                 if not before <= set(sd2):
                     acc.fail("C11|api|%s|settings-keys|refused" % fam, "missing %s after %s were refused" % (sorted(before - set(sd2))[:4], sorted(refused_ids)[:4]),
                              dict(case, call="read_settings_data", refused=picked))
+                # the same bulk read while another call on the object (a single read of a refused setting, a second bulk read) overlaps it
+                for oname, offset in (("single", 0), ("single", k % 5 + 1), ("bulk", 1 + k % 7), ("bulk", 0)):
+                    inv3, sim3 = make_target(fam, k, seed)
+                    sim3.refused.extend((a, a) for a in picked)
+                    sim3.refuse_code = 2
+                    before3 = {s.id_ for s in inv3.settings()}
+                    rid = sorted(refused_ids)[0] if refused_ids else sorted(before3)[0]
+                    other = (lambda: inv3.read_setting(rid)) if oname == "single" else (lambda: inv3.read_settings_data())
+                    acc.case()
+                    res3, exc3 = siminv.run_overlapping(inv3, lambda: inv3.read_settings_data(), [(other, offset)])
+                    acc.nontrivial("api", fam, k, "settings-refused-overlap", oname, offset)
+                    ocase = dict(case, call="read_settings_data", refused=picked, overlap=[oname, offset])
+                    if exc3 is not None:
+                        from goodwe.exceptions import InverterError
+                        if not isinstance(exc3, InverterError):
+                            acc.fail("C11|exception|%s|%s" % (type(exc3).__name__, _where(exc3)), "read_settings_data() overlapping with %s raised %r" % (
+                                "read_setting(%r)" % rid if oname == "single" else "a second read_settings_data()", exc3), ocase)
+                    elif not before3 <= set(res3):
+                        acc.fail("C11|api|%s|settings-keys|refused" % fam, "missing %s when %s overlapped the bulk read" % (sorted(before3 - set(res3))[:4], oname), ocase)
                 # (no value comparison with the first object's result: the sensor definitions are shared between objects
                 #  and carry decoding state - that is C20's subject and known finding, not this property's)
         ids = [s.id_ for s in inv.settings()]
